@@ -35,7 +35,7 @@ for i, n in enumerate([64, 256, 1024, 4096]):
     open(f"{d}/seed{i}", "wb").write(out[:n])
 PY
   VERIF_FUZZ_PROP="$ID" VERIF_FUZZ_SUB="$sub" VERIF_FUZZ_TIER=thorough VERIF_SEED="$SEED" \
-    "$FZ" -runs="$RUNS" -seed="$((SEED + 1))" -max_len=8192 -len_control=0 -timeout=300 -rss_limit_mb=8192 \
+    "$FZ" -runs="$RUNS" -seed="$((SEED + 1))" -max_len=8192 -len_control=0 -max_total_time="${VERIF_FUZZ_MAX_TIME:-240}" -timeout=300 -rss_limit_mb=8192 \
     -artifact_prefix="$corpus/" "$corpus" > "$OUTD/out-$sub.txt" 2>&1
   echo $? > "$OUTD/rc-$sub.txt"
   rm -rf "$corpus"
@@ -62,7 +62,7 @@ import json, sys
 p, total, runs = sys.argv[1], int(sys.argv[2]), int(sys.argv[3])
 try:
     ev = json.load(open(p))
-    ev["coverage"]["fuzz_supplement"] = {"engine": "libFuzzer via libfuzzer-sys on stable + sancov, bytes -> proptest pass-through RNG", "runs_per_sub": runs, "total_runs": total}
+    ev["coverage"]["fuzz_supplement"] = {"engine": "libFuzzer via libfuzzer-sys on stable + sancov, bytes -> proptest pass-through RNG", "runs_per_sub_at_most": runs, "max_total_time_per_sub_s": 240, "total_runs_at_most": total}
     json.dump(ev, open(p, "w"), indent=2)
 except Exception as e:
     print("NOTICE could not annotate evidence:", e)
